@@ -186,6 +186,10 @@ class MiniEval:
                     base_ = None
                 if isinstance(base_, tuple) and hasattr(base_, '_fields') and e.attr in base_._fields:
                     return getattr(base_, e.attr)
+        if isinstance(e, ast.Attribute) and e.attr == '__class__' and norm(e) not in self.env and 'type' in self.env:
+            v_ = self.ev(e.value)
+            if not isinstance(v_, (Obj, Sym, Term)):
+                return type(v_)
         if isinstance(e, ast.Attribute) and e.attr == '__func__':
             return self.ev(e.value)         # the function wrapped by a staticmethod / bound method
         if isinstance(e, ast.Lambda):
@@ -300,8 +304,11 @@ class MiniEval:
                 return base[lo:hi]
             key = self.ev(e.slice)
             if isinstance(base, dict):
-                if key not in base:
-                    raise _Fault('KeyError')
+                try:
+                    if key not in base:
+                        raise _Fault('KeyError')
+                except TypeError:       # unhashable key
+                    raise _Fault('TypeError') from None
                 return base[key]
             if isinstance(base, (tuple, list, str)) and isinstance(key, int) and not isinstance(key, bool):
                 if not -len(base) <= key < len(base):
@@ -697,7 +704,10 @@ class MiniEval:
         elif isinstance(target, ast.Subscript):
             base = self.ev(target.value)
             if isinstance(base, dict):
-                base[self.ev(target.slice)] = value
+                try:
+                    base[self.ev(target.slice)] = value
+                except TypeError:
+                    raise _Fault('TypeError') from None
             elif isinstance(base, list):
                 idx = self.ev(target.slice)
                 if not isinstance(idx, int) or not -len(base) <= idx < len(base):
